@@ -876,6 +876,10 @@ def execute(schedule, ctx):
                 ctx.probe('must-fail:' + kind)
                 ctx.check(prop, sig + '/must-raise', e is not None, {'op': {k: v for k, v in op.items() if k != 'value'}, 'value': op.get('value'), 'n': n})
                 if e is None:
+                    if nm is not None:
+                        others_ = [k_ for k_ in party.order if k_ != nm and k_ in party.ref]
+                        if others_ and list(d['index']) == party.order:
+                            compare_ref(party, ctx, prop, sig + '/other-series-unchanged', others_)
                     if invariants(party, ctx, kind + '/' + _vclass(op.get('value'))):
                         pass
                     party.sync()
@@ -905,6 +909,11 @@ def execute(schedule, ctx):
             if e is not None:
                 unchanged = O.obs(x) == before[i]
                 ctx.check(prop, sig + '/failed-op-leaves-object-unchanged', unchanged, {'paths': O.diff(before[i], O.obs(x))[:4]})
+            elif nm is not None:
+                # whatever became of the assigned variable, every other series is as it was
+                others_ = [k_ for k_ in party.order if k_ != nm and k_ in party.ref]
+                if others_ and list(d['index']) == party.order:
+                    compare_ref(party, ctx, prop, sig + '/other-series-unchanged', others_)
             if invariants(party, ctx, kind + '/' + _vclass(op.get('value'))):
                 pass
             party.sync()
